@@ -379,7 +379,7 @@ theorem parseRedir_normal (fd : Option Nat) (hfd : FdOk fd) (op : RedirOp) (w : 
 /-- operators that do not start a redirection -/
 def Op.plain (o : Op) : Bool :=
   (redirOpOf o).isNone && o != .lessLess && o != .lessLessDash && o != .lessOpenParen &&
-    o != .greaterOpenParen
+    o != .greaterOpenParen && o != .openParen
 
 theorem opTail_plain (r : List Char) (edges : List (Char × Op)) (d : Op) (hd : d.plain = true)
     (he : ∀ p ∈ edges, p.2.plain = true) : (opTail r edges d).1.plain = true := by
